@@ -6,7 +6,7 @@ Executable model (no Mathlib) of
 * `System.add` + `GroupBase.get_next_idx` + `ModelData.add` + `GroupBase.add`   (`addDev`)
 * `GroupBase.idx2uid / idx2model`, `Model.idx2uid`                              (`idx2uid`, `idx2model`, `modelIdx2uid`)
 * `ModelData.find_idx` (flags `allow_none`, `allow_all`, `default`)             (`modelFind`)
-* `GroupBase.find_idx` — as written, i.e. only the FIRST model with a match     (`groupFind`)
+* `GroupBase.find_idx` — the matches of every model, in model order (repaired)  (`groupFind`)
 * `System.collect_ref` + `GroupBase.set_backref` + `Model.set_backref`          (`collectRef`, `collectRefM`)
 * `DeviceFinder.find_or_add`                                                    (`finder`)
 * `ExtParam.link_external` / `ExtVar.link_external` resolution of an indexer    (`linkAll`, `extAddr`)
@@ -116,12 +116,13 @@ def perModel (g : Grp) (keys : List Nat) (dflt : Val) (q : List Val) (m : Nat) :
   let h := hits (rowsOf g m) keys q
   if h.isEmpty then [dflt] else h.map some
 
-/-- one search tuple of `GroupBase.find_idx`: (`out_pre` item, missing?) — the item is the answer of
-the FIRST model whose answer differs from `[default]` -/
+/-- one search tuple of `GroupBase.find_idx`: (`out_pre` item, missing?) — the item is the concatenation, in
+model order, of the answers of all models whose answer differs from `[default]` (on the pinned tree: the answer of
+the FIRST such model only — finding `group-find-all-first-model-only`, repaired) -/
 def groupFindOne (g : Grp) (nm : Nat) (keys : List Nat) (dflt : Val) (q : List Val) : List Val × Bool :=
   let per := (List.range nm).map (perModel g keys dflt q)
-  if per.all (fun l => decide (l = [dflt])) then ([dflt], true)
-  else ((per.find? (fun l => decide (l ≠ [dflt]))).getD [dflt], false)
+  let found := per.filter (fun l => decide (l ≠ [dflt]))
+  if found.isEmpty then ([dflt], true) else (found.flatten, false)
 
 def groupFind (g : Grp) (nm : Nat) (keys : List Nat) (qs : List (List Val)) (allowNone allowAll : Bool)
     (dflt : Val) : Option (List (List Val)) :=
